@@ -175,7 +175,7 @@ func buildPolicies(st []PolD, li *liveInst) []failsafe.Policy[int] {
 	var ps []failsafe.Policy[int]
 	for pos, p := range st {
 		pos, p := pos, p
-		memo := fmt.Sprint(pos, " ", p.Gallina())
+		memo := fmt.Sprint(pos, " ", p.Gallina(), " ", p.PreMax)
 		if pol, ok := li.built[memo]; ok && (p.K == "Retry" || p.K == "Timeout" || p.K == "Fallback" || p.K == "Cache" || p.K == "Hedge") {
 			ps = append(ps, pol)
 			continue
@@ -184,6 +184,14 @@ func buildPolicies(st []PolD, li *liveInst) []failsafe.Policy[int] {
 		case "Retry":
 			b := applyHandle(retrypolicy.Builder[int](), p.Handle)
 			b = applyAbortRetry(b, p.Abort)
+			switch p.PreMax {
+			case "unlimited":
+				b = b.WithMaxRetries(-1)
+			case "attempts":
+				b = b.WithMaxAttempts(9)
+			case "retries":
+				b = b.WithMaxRetries(7)
+			}
 			if p.MaxAttempts {
 				if p.MaxRetries == -1 {
 					b = b.WithMaxAttempts(-1)
@@ -373,6 +381,10 @@ func runHistory(t *testing.T, inst InstD, reqs []ReqD) (obs []ExecObs, start int
 				ctx = context.WithValue(ctx, cachepolicy.CacheKey, keyName(rq.CtxKey))
 			}
 			var asyncCancel func()
+			if rq.ExtT == 0 && rq.ExtKind == "" && (len(rq.Stack)+len(rq.Script))%2 == 1 {
+				// half of the executions that nobody cancels still run under a cancellable context (its Done channel is not nil)
+				ctx, cancel = context.WithCancel(ctx)
+			}
 			if rq.ExtKind == "PreCancel" {
 				ctx, cancel = context.WithCancel(ctx)
 				cancel()
